@@ -240,5 +240,5 @@ def negative_bins(run, libs, tag="", timeout=3000):
             failed = ('could not compile `%s_bins` (bin "%s")' % (lib["name"], b["name"])) in p.stdout
             bins[b["name"]] = "fail" if (failed or lib_failed) else "ok"
         out[lib["name"]] = {"lib_built": not lib_failed, "bins": bins,
-                            "log": "\n".join(l for l in p.stdout.splitlines() if (lib["name"] + "_bins/") in l or ("/" + lib["name"] + "/") in l)[-3000:]}
+                            "log": "\n".join(l for l in p.stdout.splitlines() if (lib["name"] + "_bins/") in l or (lib["name"] + "/") in l or ("`%s`" % lib["name"]) in l)[-3000:]}
     return out
